@@ -17,7 +17,7 @@ DEFAULT = dict(
     p_group_result=0.25, p_flatten=0.4, p_as=0.12, p_named=0.25,
     p_opt=0.25, p_group_param=0.25, p_soft=0.35, p_obj=0.5, p_nest=0.25,
     p_dup=0.06, p_cycle=0.1, p_unknown_dep=0.08, p_foreign_dep=0.12,
-    n_types=8, early_scopes=0.3, p_multi_dec=0.25, p_group_dec=0.3, p_dec_self=0.85, p_one_obj=0.0, p_soft_pattern=0.0, p_dec_chain=0.0, p_dup_as=0.03, p_dup_dec_key=0.0, p_variadic=0.12, p_ns=0.2, p_wrap_ty=0.08, p_group_chain=0.02,
+    n_types=8, early_scopes=0.3, p_multi_dec=0.25, p_group_dec=0.3, p_dec_self=0.85, p_one_obj=0.0, p_soft_pattern=0.0, p_dec_chain=0.0, p_dup_as=0.03, p_dup_dec_key=0.0, p_variadic=0.12, p_ns=0.2, p_wrap_ty=0.08, p_group_chain=0.02, p_unexp=0.1,
 )
 
 PROFILES = {
@@ -28,7 +28,7 @@ PROFILES = {
     "gaps": dict(p_unknown_dep=0.25, p_foreign_dep=0.3, p_opt=0.5, p_fault=0.08, w_decorate=1, n_types=7, p_export=0.3,
                  early_scopes=0.6),
     "dfaults": dict(w_decorate=6, p_fault=0.3, p_opt=0.5, n_types=5, p_multi_dec=0.3, p_group_dec=0.3, w_invoke=9,
-                    p_dec_chain=0.3),
+                    p_dec_chain=0.3, p_dec_retry=0.2),
     "gfaults": dict(p_group_result=0.7, p_group_param=0.7, p_soft=0.1, p_flatten=0.4, n_types=3, p_fault=0.35,
                     w_decorate=0.5, early_scopes=0.8, w_scope=3, w_invoke=8),
     "cycles": dict(p_cycle=0.45, p_defer=0.5, p_export=0.3, w_provide=12, w_invoke=4, w_decorate=0.5,
@@ -39,10 +39,10 @@ PROFILES = {
     "trees": dict(w_scope=5, max_scopes=8, p_export=0.25, early_scopes=0.5, w_decorate=2, p_fault=0.03),
     "keys": dict(p_named=0.6, p_as=0.35, p_group_result=0.4, p_dup=0.2, n_types=3, w_decorate=1, p_fault=0.02),
     "groups": dict(p_group_result=0.7, p_group_param=0.7, p_soft=0.15, p_flatten=0.5, p_as=0.15, n_types=4,
-                   w_decorate=0.6, p_fault=0.05, p_export=0.2, p_group_chain=0.08),
+                   w_decorate=0.6, p_fault=0.05, p_export=0.2, p_group_chain=0.08, p_wrap_ty=0.25),
     "soft": dict(p_group_result=0.6, p_group_param=0.7, p_soft=0.6, n_types=4, w_decorate=0.3, p_fault=0.03, p_one_obj=0.7, p_soft_pattern=0.35),
     "decor": dict(w_decorate=7, p_multi_dec=0.35, p_group_dec=0.35, n_types=5, p_fault=0.12, w_scope=3, p_dec_chain=0.35,
-                  p_dup_dec_key=0.04, p_ns=0.45),
+                  p_dup_dec_key=0.04, p_ns=0.45, p_dec_retry=0.12),
     "callbacks": dict(p_callback=0.8, p_fault=0.3, w_decorate=3, n_types=6),
     "dry": dict(p_dry=1.0, p_fault=0.0, p_callback=0.35, p_variadic=0.3, w_decorate=3),
 }
@@ -170,8 +170,15 @@ class Gen:
             j = self.r.randrange(i, len(leaves)) + 1
             inner = self.mk_obj(leaves[i:j]) if j - i >= 1 else None
             fields = leaves[:i] + ([inner] if inner else []) + leaves[j:]
-            return dict(k="obj", fields=fields)
-        return dict(k="obj", fields=list(leaves))
+            return self.with_unexported(dict(k="obj", fields=fields))
+        return self.with_unexported(dict(k="obj", fields=list(leaves)))
+
+    def with_unexported(self, obj):
+        # dig.In tagged ignore-unexported:"true" with an unexported field somewhere among the
+        # fields (dig skips it; the model's parameter objects do not contain it)
+        if obj["fields"] and self.chance(self.p["p_unexp"]):
+            obj["unexp"] = self.r.randrange(len(obj["fields"]))
+        return obj
 
     def gen_params(self, s, n, avoid=()):
         leaves = []
@@ -444,7 +451,58 @@ class Gen:
         for sc in order:
             consume(sc)
 
+    def gen_dec_retry(self):
+        """a decorator that fails on its first run; before it is retried its INPUT changes (an
+        ancestor scope decorates the key, or the group gets another member): the retry must see
+        what a consumer in its scope would see now"""
+        while len(self.parents) < 3:
+            self.ops.append(dict(op="scope", parent=len(self.parents) - 1))
+            self.parents.append(len(self.parents) - 1)
+            self.prov.append(dict())
+            self.decorated.append(set())
+        leafs = [x for x in range(len(self.parents)) if len(self.ancestors(x)) >= 3]
+        if not leafs:
+            return
+        leaf = self.r.choice(leafs)
+        chain = self.ancestors(leaf)            # leaf, mid, ..., root
+        root, mid = chain[-1], chain[1]
+        grp = self.chance(0.5)
+        k = self.rand_group_key() if grp else self.rand_single_key()
+        if k in self.decorated[root] or k in self.decorated[mid] or (not grp and k in self.prov[root]):
+            return
+
+        def res():
+            return dict(k="group", ty=k[1], group=k[2], flatten=False, **{"as": []}) if grp else dict(k="single", ty=k[1], name=k[2], **{"as": []})
+
+        def feeder():
+            f = self.new_fn(params=[], results=[dict(k="obj", fields=[res()])], err=False)
+            self.ops.append(dict(op="provide", scope=root, fn=f["id"], export=False))
+            self.prov[root].setdefault(k, f["id"])
+
+        def consume(sc):
+            f = self.new_fn(params=[dict(k="obj", fields=[self.leaf_param(k)])], results=[], err=True)
+            self.ops.append(dict(op="invoke", scope=sc, fn=f["id"]))
+
+        def decorator(sc, plan):
+            f = self.new_fn(params=[dict(k="obj", fields=[self.leaf_param(k)])], results=[dict(k="obj", fields=[res()])], err=True)
+            self.decorate_fn(f, role="dec")
+            f["plan"] = plan
+            self.ops.append(dict(op="decorate", scope=sc, fn=f["id"]))
+            self.decorated[sc].add(k)
+        feeder()
+        decorator(mid, [self.r.choice(["err", "err", "panic"]), "ok", "ok"])
+        consume(leaf)
+        if grp and self.chance(0.5):
+            feeder()
+        else:
+            decorator(root, ["ok", "ok", "ok"])
+        consume(leaf)
+        if self.chance(0.5):
+            consume(mid)
+
     def gen_decorate(self):
+        if self.chance(self.p.get("p_dec_retry", 0.0)) and len(self.ops) < 16:
+            return self.gen_dec_retry()
         if self.chance(self.p.get("p_dec_chain", 0.0)) and len(self.ops) < 14:
             return self.gen_dec_chain()
         s = self.r.randrange(len(self.parents))
